@@ -632,7 +632,8 @@ class Polyhedron(Shape3D):
                 break
             except np.linalg.LinAlgError:
                 current_rotation = rowan.random.rand(1)
-                vertices = rowan.rotate(current_rotation, vertices)
+                # Always rotate the original vertices: only this rotation is undone below.
+                vertices = rowan.rotate(current_rotation, self.vertices)
         else:
             raise RuntimeError("Unable to solve for a bounding sphere.")
 
